@@ -1,7 +1,16 @@
 package checks
 
 import (
+	"context"
+	"fmt"
+	"sort"
+
+	"git.defalsify.org/vise.git/cache"
+	"git.defalsify.org/vise.git/db"
+	"git.defalsify.org/vise.git/state"
+
 	"verif/harness/app"
+	"verif/harness/codec"
 	"verif/harness/vk"
 )
 
@@ -43,8 +52,9 @@ func C03() *vk.Check {
 			return p
 		},
 		NonTrivial: func(s *sessStats) bool { return s.Moves >= 2 }}
-	return &vk.Check{ID: "C03", Level: "exploration", MinEvaluations: 300, Shards: func(string) int { return 16 }, Run: mc.run,
-		Rule:        "reference-model monitor: generated programs with 1..8 INCMP lines per HALT over a small selector alphabet (duplicates frequent), wildcard at any position, named and relative targets, non-INCMP instructions interleaved, several HALTs per node; inputs = selectors of the node, of other nodes, junk, empty. After every request: the nodes fetched (GetCode log, in order) and the resulting position equal the model's first-match-once routing; with no match the session is on _catch and the page shows \"invalid input: '<input>'\"; '<' on page 0 counts as no match. distinct = hash(app, history, driver); non-trivial = at least 2 moves.",
+	return &vk.Check{ID: "C03", Level: "exploration", MinEvaluations: 300, Shards: func(string) int { return 16 }, Run: func(c *vk.Ctx) { mc.run(c); c03Metamorphic(c) },
+		Rule: "reference-model monitor: generated programs with 1..8 INCMP lines per HALT over a small selector alphabet (duplicates frequent), wildcard at any position, named and relative targets, non-INCMP instructions interleaved, several HALTs per node; inputs = selectors of the node, of other nodes, junk, empty. After every request: the nodes fetched (GetCode log, in order) and the resulting position equal the model's first-match-once routing; with no match the session is on _catch and the page shows \"invalid input: '<input>'\"; '<' on page 0 counts as no match. distinct = hash(app, history, driver); non-trivial = at least 2 moves. " +
+			"(b) model-free metamorphic oracle: a generated session is served to some HALT, its stored pending bytecode is decoded, and for an input x whose first matching INCMP is at position m the stored code is rewritten (as client code could) — a non-matching INCMP before m deleted, two of them swapped, extra INCMP lines (same selector, wildcard, other) inserted between m and the next HALT — and x is sent to a copy of the session: output, continue flag and position must equal the unmodified copy's.",
 		Assumptions: []string{modelAssumption}}
 }
 
@@ -112,4 +122,153 @@ func C20() *vk.Check {
 		Rule: "reference-model monitor, persisted driver over mem, fs and the Postgres fake: applications with end nodes of both kinds (code ends right after HALT / ends without HALT) at depth 0..8, functions that set TERMINATE, CROAK, client flags set along the way, symbols loaded at several levels; histories continue past the end of the session over several end/restart cycles, and TERMINATE is cleared in the stored state (as client code would) at PRNG points. " +
 			"Graceful end: the final page plus exit value is delivered, stop is reported, the next request starts at the entry node with an empty cache and the client flags kept. Other end / TERMINATE: stop is reported and every later request produces no output, makes no callback and does not move until the flag is cleared; afterwards the session proceeds. distinct = hash(app, history, driver); non-trivial = at least one restart or one blocked request was observed.",
 		Assumptions: []string{modelAssumption, "what the terminating request itself renders is unspecified"}}
+}
+
+// ---------------------------------------------------------------------------------------------
+// C03 (b): model-free metamorphic oracle on the pending INCMP list
+
+func c03Metamorphic(c *vk.Ctx) {
+	n := c.N(1500, 60000)
+	for i := 0; i < n; i++ {
+		if !c.Mine(i) {
+			continue
+		}
+		key := fmt.Sprintf("meta/%d", i)
+		if !c.Want(key) {
+			continue
+		}
+		r := c.RNG(key)
+		p := c07Profile(r)
+		p.Lang = false
+		p.Terminate = false
+		a := app.Generate(r, p)
+		cfg := genConfig(r, a, "base")
+		hist := a.History(r, r.Range(1, 10))
+		c.Begin(key)
+		b, err := app.NewBackend("mem")
+		if err != nil {
+			continue
+		}
+		raw, _ := b.Handle()
+		pr := app.NewPerRequest(a, cfg, b)
+		pr.SkipStoredRead = true
+		ok := true
+		for _, in := range hist {
+			o := pr.Request([]byte(in))
+			if !o.Cont || o.ExecErr != "" || o.FlushErr != "" || o.Panic != "" {
+				ok = false
+				break
+			}
+		}
+		if !ok {
+			continue
+		}
+		ctx := context.Background()
+		raw.SetPrefix(db.DATATYPE_STATE)
+		snap, err := raw.Get(ctx, []byte("base"))
+		if err != nil {
+			continue
+		}
+		st, _, serr := pr.ReadStored()
+		if serr != "" || st == nil {
+			continue
+		}
+		pending, class, _ := codec.Decode(st.Code)
+		if class != codec.Valid {
+			continue
+		}
+		// the INCMP block: instructions up to the next HALT
+		end := len(pending)
+		for k, ins := range pending {
+			if ins.Op == codec.HALT {
+				end = k
+				break
+			}
+		}
+		al := append(a.Alphabet(), "zz")
+		x := vk.Pick(r, al)
+		m := -1
+		for k := 0; k < end; k++ {
+			if pending[k].Op == codec.INCMP && (pending[k].S2 == x || pending[k].S2 == "*") {
+				m = k
+				break
+			}
+		}
+		if m < 0 {
+			continue
+		}
+		calls := cloneCalls(pr.Res.Calls)
+		serve := func(sid string, code []codec.Ins) *app.Obs {
+			raw.SetPrefix(db.DATATYPE_STATE)
+			raw.Put(ctx, []byte(sid), snap)
+			cf := cfg
+			cf.SessionId = sid
+			d := app.NewPerRequest(a, cf, b)
+			d.Res.Calls = cloneCalls(calls)
+			if code != nil {
+				if err := d.Mutate(func(s *state.State, ca *cache.Cache) { s.SetCode(codec.EncodeAll(code)) }); err != nil {
+					return nil
+				}
+			}
+			return d.Request([]byte(x))
+		}
+		base := serve("ref", nil)
+		if base == nil || base.Panic != "" {
+			continue
+		}
+		c.Eval(vk.Hash64(key), true)
+		c.Count("metamorphic_bases", 1)
+		nodes := []string{}
+		for name := range a.Nodes {
+			if name != "_catch" {
+				nodes = append(nodes, name)
+			}
+		}
+		sort.Strings(nodes)
+		variant := 0
+		try := func(kind string, code []codec.Ins) {
+			variant++
+			o := serve(fmt.Sprintf("v%d", variant), code)
+			if o == nil {
+				return
+			}
+			c.Count("metamorphic_variants", 1)
+			same := o.Out == base.Out && o.Cont == base.Cont && (o.ExecErr == "") == (base.ExecErr == "") && (o.FlushErr == "") == (base.FlushErr == "") &&
+				o.State != nil && base.State != nil && fmt.Sprint(o.State.ExecPath, o.State.SizeIdx) == fmt.Sprint(base.State.ExecPath, base.State.SizeIdx)
+			if !same {
+				c.Violate("metamorphic:"+kind, fmt.Sprintf("input %q, pending block %v (first match at %d): %s changed the outcome: %s | unchanged: %s", x, codec.Strings(pending[:end]), m, kind, o.Brief(), base.Brief()), key,
+					map[string]interface{}{"app": a.Describe(), "config": cfg, "history": hist, "input": x, "pending": codec.Strings(pending), "variant_pending": codec.Strings(code)})
+			}
+		}
+		// T1: delete / reorder INCMP lines before the first matching one (none of them matches x)
+		var before []int
+		for k := 0; k < m; k++ {
+			if pending[k].Op == codec.INCMP {
+				before = append(before, k)
+			}
+		}
+		if len(before) > 0 {
+			del := vk.Pick(r, before)
+			code := append(append([]codec.Ins{}, pending[:del]...), pending[del+1:]...)
+			try("delete-nonmatching-incmp-before-the-match", code)
+		}
+		if len(before) > 1 {
+			code := append([]codec.Ins{}, pending...)
+			i1, i2 := before[0], before[len(before)-1]
+			code[i1], code[i2] = code[i2], code[i1]
+			try("swap-nonmatching-incmps-before-the-match", code)
+		}
+		// T2: extra INCMP lines after the first matching one, before the next HALT: same selector, wildcard, other
+		for _, sel := range []string{x, "*", "q9"} {
+			extra := codec.Ins{Op: codec.INCMP, S1: vk.Pick(r, nodes), S2: sel}
+			if extra.S1 == pending[m].S1 {
+				extra.S1 = "_catch2x"
+				continue
+			}
+			pos := r.Range(m+1, end)
+			code := append(append(append([]codec.Ins{}, pending[:pos]...), extra), pending[pos:]...)
+			try("insert-incmp-after-the-match", code)
+		}
+		b.Cleanup()
+	}
 }
